@@ -122,7 +122,7 @@ def merge(aggs):
 def run_batch(pid, tier, seed, n_indices, workers, wall_cap):
     """Runs indices [0, n_indices) in forked workers; returns (merged, truncated, wall)."""
     t0 = time.time()
-    chunk = max(1, min(64, n_indices // (workers * 4) or 1))
+    chunk = max(1, min(getattr(load_prop(pid), "CHUNK", 64), n_indices // (workers * 4) or 1))
     tasks = [(s, min(n_indices, s + chunk)) for s in range(0, n_indices, chunk)]
     aggs = []
     truncated = False
